@@ -21,6 +21,8 @@ class Module:
             self.tree = ast.parse(src, filename=path)
         except SyntaxError as e:
             raise AnalysisError('module %s does not parse: %s' % (relpath, e))
+        from .inline import inline_new_helpers, known_functions
+        self.inlined = inline_new_helpers(self.tree, name, known_functions())
         for node in ast.walk(self.tree):
             for child in ast.iter_child_nodes(node):
                 child._parent = node
